@@ -8,6 +8,11 @@ import Driver.C01
 -/
 open TV TV.Driver
 
+/-- is the repair of F-C02-2 (stream identities, `Model/StreamId.lean`) part of the committed code?  The variant
+    with this value is the one a case must replay under for K=ok; the variant with the other value is tried
+    first on a mismatch ("fixed:all+streamid" / "fixed:all-streamid").  Flip when the repair is committed. -/
+def committedStreamId : Bool := false
+
 /-- Model variants.  The first one is the code as it stands (all committed repairs, including the
     ready-queue repair of F-C08-1 / F-C03-2 in `Cfg.fixed`); a case must replay under it for K=ok.  The
     others are the code before each repair (`Cfg.fixedRand` = random process repaired, ready queues not):
@@ -46,9 +51,11 @@ def runCase (prop : String) (lines : List String) : String × Bool × Bool :=
     | (name, link, leak, fin, wr) :: rest =>
       let st := replay lines link leak fin wr
       if st.bad.isNone then some (name, st) else firstOk rest
-  let cur := replay lines Cfg.fixed true true true
+  let cur := replay lines Cfg.fixed true true true committedStreamId
+  let other := replay lines Cfg.fixed true true true (!committedStreamId)
   let (kOk, vname, st) :=
     if cur.bad.isNone then (true, "fixed:all", cur) else
+    if other.bad.isNone then (false, (if committedStreamId then "regressed:fixed:all-streamid" else "regressed:fixed:all+streamid"), cur) else
     match firstOk (variants.drop 1) with
     | some (name, _) => (false, s!"regressed:{name}", cur)
     | none => (false, "none", cur)
